@@ -981,7 +981,10 @@ func constLit(t string) string {
 // the uninterpreted string sort does not have: a quantified fact is used there.
 func (f *FuncVC) allEqual(a string, k Kind, w int, z string) string {
 	if k == KStr {
-		return "(forall ((k Int)) (! (= (select " + a + " k) " + z + ") :pattern ((select " + a + " k))))"
+		// the array term may mention a merged heap (a define-fun whose body is an ite, which z3 refuses inside a
+		// pattern): name it by a declared constant; e-matching works modulo the asserted equality
+		c := f.freshConst("zarr", "(Array Int Str)")
+		return "(and (= " + c + " " + a + ") (forall ((k Int)) (! (= (select " + c + " k) " + z + ") :pattern ((select " + c + " k)))))"
 	}
 	return "(= " + a + " ((as const (Array Int " + sortOf(k, w) + ")) " + constLit(z) + "))"
 }
